@@ -90,6 +90,7 @@ def run_edit(args) -> dict:
         try:
             repo = Repo(root=root)
             fired = []
+            still = []
             from .runner import RULES
             from . import rules as _r  # noqa: F401
 
@@ -98,6 +99,7 @@ def run_edit(args) -> dict:
                     continue  # property has no rules (yet): nothing to test
                 res = run_property(repo, prop, "thorough")
                 fired += [(prop, o.rule, o.construct, o.msg) for o in res.violations]
+                still += [(prop, o.rule, o.construct) for o, k in res.known if k.get("id") == edit.get("finding")]
         except AnalysisError as e:
             return {"id": edit["id"], "status": "analysis-error", "detail": str(e)}
         except Exception as e:  # noqa: BLE001  (a crash of the checker is reported, not raised)
@@ -112,6 +114,12 @@ def run_edit(args) -> dict:
                 "status": "caught" if hit else "MISSED",
                 "by": sorted({f"{f[0]}:{f[1]}" for f in fired}),
                 "first": hit[0][2:] if hit else None,
+            }
+        if edit["kind"] == "repair":
+            return {
+                "id": edit["id"],
+                "status": "STILL-REPORTED" if still else ("FALSE-ALARM" if fired else "repaired-silent"),
+                "by": [f"{f[0]}:{f[1]} {f[2]}" for f in still + [x[:3] for x in fired]][:5],
             }
         return {
             "id": edit["id"],
@@ -156,12 +164,14 @@ def run_selftest(prop: str, seed: int = 0) -> dict:
     # known findings are violations on the base tree too; the corpus only counts *new* ones,
     # which is what run_edit sees because known findings are not in res.violations.
     results = run_corpus(edits)
-    bad = [r for r in results if r["status"] in ("MISSED", "FALSE-ALARM", "broken-edit", "internal-error")]
+    bad = [r for r in results if r["status"] in ("MISSED", "FALSE-ALARM", "STILL-REPORTED", "broken-edit", "internal-error")]
     summary = {
         "mutants": sum(1 for e in edits if e["kind"] == "mutant"),
         "benign": sum(1 for e in edits if e["kind"] == "benign"),
         "caught": sum(1 for r in results if r["status"] == "caught"),
         "silent": sum(1 for r in results if r["status"] == "silent"),
+        "repairs": sum(1 for e in edits if e["kind"] == "repair"),
+        "repaired_silent": sum(1 for r in results if r["status"] == "repaired-silent"),
         "skipped": [r["id"] for r in results if r["status"] == "skipped"],
         "analysis_error": [r["id"] for r in results if r["status"] == "analysis-error"],
         "results": results,
@@ -192,7 +202,7 @@ def main(argv=None) -> int:
     for r in res:
         print(r["id"], r["status"], r.get("by") or r.get("detail") or "")
         is_mutant = any(e["id"] == r["id"] and e["kind"] == "mutant" for e in edits)
-        if r["status"] in ("MISSED", "FALSE-ALARM", "broken-edit", "internal-error") or (r["status"] == "analysis-error" and not is_mutant):
+        if r["status"] in ("MISSED", "FALSE-ALARM", "STILL-REPORTED", "broken-edit", "internal-error") or (r["status"] == "analysis-error" and not is_mutant):
             bad += 1
     print(f"{len(res)} edits, {bad} problems")
     return 2 if bad else 0
